@@ -3,14 +3,18 @@
 package flows
 
 import (
+	"context"
+
 	"github.com/agglayer/aggkit/aggsender/db"
 	"github.com/agglayer/aggkit/aggsender/types"
 	"github.com/ethereum/go-ethereum/common"
 )
 
 // VerifNextParamsC13 computes (height, previous LER, first block, retry count) of the next certificate exactly
-// as the flow does: the real (*baseFlow).getLastSentBlockAndRetryCount and getNextHeightAndPreviousLER applied to
-// storage.GetLastSentCertificateHeader(). Thin wrapper for the /verif C13 harness.
+// as the flows do, in their order: the real (*baseFlow).getLastSentBlockAndRetryCount (GetCertificateBuildParamsInternal),
+// then the real VerifyBuildParams (retry certificates must start at the failed certificate's first block), then the
+// real getNextHeightAndPreviousLER (BuildCertificate), applied to storage.GetLastSentCertificateHeader().
+// Thin wrapper for the /verif C13 harness.
 func VerifNextParamsC13(log types.Logger, storage db.AggSenderStorage, lerQuerier types.LERQuerier,
 	startL2Block uint64) (uint64, common.Hash, uint64, int, error) {
 	f := NewBaseFlow(log, nil, storage, nil, lerQuerier, NewBaseFlowConfig(0, startL2Block, false))
@@ -19,6 +23,11 @@ func VerifNextParamsC13(log types.Logger, storage db.AggSenderStorage, lerQuerie
 		return 0, common.Hash{}, 0, 0, err
 	}
 	previousToBlock, retryCount := f.getLastSentBlockAndRetryCount(last)
+	fromBlock := previousToBlock + 1
+	if err := f.VerifyBuildParams(context.Background(), &types.CertificateBuildParams{
+		FromBlock: fromBlock, ToBlock: fromBlock, RetryCount: retryCount, LastSentCertificate: last}); err != nil {
+		return 0, common.Hash{}, fromBlock, retryCount, err
+	}
 	height, prevLER, err := f.getNextHeightAndPreviousLER(last)
-	return height, prevLER, previousToBlock + 1, retryCount, err
+	return height, prevLER, fromBlock, retryCount, err
 }
